@@ -137,7 +137,8 @@ def run_crosshair(per_condition_timeout: int, names=None):
     if names:
         fns = [f for f in fns if f[0] in names]
     procs = []
-    env = dict(os.environ, PYTHONPATH=VERIF_DIR, PYTHONHASHSEED="0")
+    tree = os.environ.get("VERIF_PYTEAL_TREE")
+    env = dict(os.environ, PYTHONPATH=(tree + ":" + VERIF_DIR) if tree else VERIF_DIR, PYTHONHASHSEED="0")
     for name, line in fns:
         cmd = [py, "-m", "crosshair", "check", "--report_all", "--per_condition_timeout", str(per_condition_timeout),
                "--per_path_timeout", str(max(2, per_condition_timeout // 6)), "%s:%d" % (LEAF_FILE, line)]
